@@ -58,6 +58,12 @@ func (s *Src) Read(p []byte) (int, error) {
 	return n, nil
 }
 
+type Shape interface{ Area() int }
+
+type Sq struct{ S int }
+
+func (s Sq) Area() int { return s.S * s.S }
+
 type Temp float64
 
 func (t Temp) MarshalJSON() ([]byte, error) { return []byte(fmt.Sprintf("\"%.1fC\"", float64(t))), nil }
@@ -106,5 +112,8 @@ func (t Temp) MarshalJSON() ([]byte, error) { return []byte(fmt.Sprintf("\"%.1fC
 	cell("error-type-switch", "\tvar e error = MyErr{9}\n	switch x := e.(type) {\n	case *PErr:\n		obs(\"ts\", \"perr\", x.Msg)\n	case MyErr:\n		obs(\"ts\", \"myerr\", x.Code)\n	default:\n		obs(\"ts\", \"default\")\n	}\n")
 	cell("error-assert-unwrapper", "\tvar e error = Wrap{MyErr{1}}\n	_, ok := e.(interface{ Unwrap() error })\n	_, ok2 := error(MyErr{1}).(interface{ Unwrap() error })\n	obs(\"unwrapper\", ok, ok2)\n")
 	cell("error-compare", "\ta, b := error(MyErr{1}), error(MyErr{1})\n	obs(\"cmp\", a == b, a != nil)\n")
+	cell("iface-equality", "\tvar a, b, c Shape = Sq{7}, Sq{7}, Sq{8}\n	obs(\"eq\", a == b, a == c, a != b)\n")
+	cell("iface-conversion-call", "\tobs(\"conv\", Shape(Sq{3}).Area())\n")
+	cell("iface-conversion-equality", "\tobs(\"conveq\", Shape(Sq{3}) == Shape(Sq{3}), Shape(Sq{3}) == Shape(Sq{4}))\n")
 	return p
 }
